@@ -7,7 +7,7 @@
   (`Ended`: closed by the server or unsubscribed / dropped / lag-closed, and an unsubscribe once sent
   has been acknowledged; a method handler removed).  It does not mention the four tables.
 -/
-import JrpcVerif.Proofs.ClientQuiesceLemmas
+import JrpcVerif.Proofs.ClientHandlerLemmas
 namespace Jrpc.Client
 open Jrpc
 
@@ -243,5 +243,222 @@ theorem c18_no_capture_at_quiescence (cap : Nat) (strIds : Bool) (steps : List S
 /-- pre-fix the reserved slot of a refused subscribe swallowed one stray response; now it is rejected -/
 example : (step (run (St.init 2 false) leakRefused).1 (.recv tAck1)).fatal = some (.notPending (.num 1)) := by
   decide
+
+/-! ### C18.4 — the notification-handler table (`subscribe_to_method`)
+
+A handler entry is removed by `UnregisterNotification` (sent by `Subscription::unsubscribe`, and by
+`Drop` when the request queue has room) or, failing that, by the first notification for its method
+that finds the receiver gone.  `Dead c`, `Lingering c m`, `Gone c` are defined in
+Proofs/ClientHandlerLemmas.lean. -/
+
+/-- a single incoming text that the read task classifies as a notification for method `m` -/
+def IsNotifFor (raw : Text) (m : Text) : Prop :=
+  firstNonWs raw = some 123 ∧ ∃ p, classifyIncoming raw = .notif m p
+
+theorem recv_notif_core (st : St) (raw : Text) (m : Text) (p : Option Text) (h1 : firstNonWs raw = some 123)
+    (h2 : classifyIncoming raw = .notif m p) :
+    (step st (.recv raw)).st.core = (processNotification st.core m p).1 ∧
+    (step st (.recv raw)).effs = (processNotification st.core m p).2 := by
+  have e : handleBack st.core raw =
+      { st := (processNotification st.core m p).1, effs := (processNotification st.core m p).2 } := by
+    unfold handleBack
+    simp only [h1]
+    simp only [beq_self_eq_true, if_true]
+    unfold handleSingle
+    simp only [h2]
+  have e1 : (step st (.recv raw)).st.core = (handleBack st.core raw).st := rfl
+  have e2 : (step st (.recv raw)).effs = (handleBack st.core raw).effs := rfl
+  rw [e1, e2, e]
+  exact ⟨rfl, rfl⟩
+
+/-- in a reachable state the entry for `m` is the only one that can point to `m`'s channel -/
+theorem lingering_of_reachable (st : St) (hr : Reachable st) (c : ChanId) (m : Text)
+    (hh : alookup m st.core.mgr.handlers = some c) (hd : Dead c st.core) : Lingering c m st.core := by
+  refine ⟨hd, ?_⟩
+  intro m' hm'
+  have hl := slive_reachable st hr
+  obtain ⟨x, hx, _, ho⟩ := hl.handler m c hh
+  obtain ⟨x', hx', _, ho'⟩ := hl.handler m' c hm'
+  rw [hx] at hx'
+  simp at hx'
+  subst hx'
+  rw [ho] at ho'
+  simp at ho'
+  exact ho'.symm
+
+/-- **A dropped handler is gone after at most one more notification for its method or the
+Unregister message, whichever comes first.**  `st` is any reachable state in which `m`'s handler
+entry points to channel `c` and the application has dropped the receiver of `c` (`Drop` with or
+without room in the request queue, or a registration whose caller gave up).  Then after any further
+steps: (1) `c`'s receiver stays dropped and no other entry ever points to `c`; (2) a notification
+for `m` leaves no entry pointing to `c`, and if the entry was still there it delivers nothing;
+(3) processing `UnregisterNotification(m)` leaves no entry for `m` at all. -/
+theorem c18_dropped_handler_gone (st : St) (hr : Reachable st) (c : ChanId) (m : Text)
+    (hh : alookup m st.core.mgr.handlers = some c) (hd : Dead c st.core) (steps : List Step) :
+    Lingering c m (run st steps).1.core ∧
+    (∀ raw, IsNotifFor raw m →
+      Gone c (step (run st steps).1 (.recv raw)).st.core ∧
+      alookup m (step (run st steps).1 (.recv raw)).st.core.mgr.handlers ≠ some c ∧
+      (alookup m (run st steps).1.core.mgr.handlers = some c →
+        alookup m (step (run st steps).1 (.recv raw)).st.core.mgr.handlers = none ∧
+        (step (run st steps).1 (.recv raw)).effs = [])) ∧
+    (∀ i, (run st steps).1.pool[i]? = some (.unregisterNotif m) →
+      Gone c (step (run st steps).1 (.sendTask i)).st.core ∧
+      alookup m (step (run st steps).1 (.sendTask i)).st.core.mgr.handlers = none) := by
+  have hl : Lingering c m (run st steps).1.core :=
+    lingering_hrel (hrel_run steps st) (lingering_of_reachable st hr c m hh hd)
+  refine ⟨hl, ?_, ?_⟩
+  · intro raw ⟨h1, p, h2⟩
+    obtain ⟨e1, e2⟩ := recv_notif_core (run st steps).1 raw m p h1 h2
+    rw [e1, e2]
+    exact lingering_notification _ c m p hl
+  · intro i hp
+    have e : step (run st steps).1 (.sendTask i) =
+        { st := { (run st steps).1 with core := (handleFront (run st steps).1.core (.unregisterNotif m)).1,
+                                        pool := removeAt (run st steps).1.pool i },
+          effs := (handleFront (run st steps).1.core (.unregisterNotif m)).2 } := by simp only [step, hp]
+    rw [e]
+    exact lingering_unregister _ c m hl
+
+/-- once no entry points to a channel, none ever will: the finished handler's channel captures no
+later notification (`process_notification` only feeds the channel its table entry points to) -/
+theorem c18_gone_forever (st : St) (c : ChanId) (hg : Gone c st.core) (steps : List Step) :
+    Gone c (run st steps).1.core ∧
+    ∀ m p q, Effect.push c q ∉ (processNotification (run st steps).1.core m p).2 := by
+  have hg' : Gone c (run st steps).1.core := gone_hrel (hrel_run steps st) hg
+  refine ⟨hg', ?_⟩
+  intro m p q hmem
+  unfold processNotification at hmem
+  cases h1 : (run st steps).1.core.mgr.asNotificationHandler m with
+  | none => simp [h1] at hmem
+  | some c' =>
+    simp only [h1] at hmem
+    cases h2 : (run st steps).1.core.chans[c']? with
+    | none => simp [h2] at hmem
+    | some ch =>
+      simp only [h2] at hmem
+      cases h3 : ch.sendRes with
+      | ok =>
+        simp [h3] at hmem
+        exact hg'.2 m (by rw [hmem.1]; exact h1)
+      | closed => simp [h3] at hmem
+      | full => simp [h3] at hmem
+
+/-- `Drop` of a method stream: the receiver is gone whether or not the request queue had room; the
+`UnregisterNotification` message is queued exactly when it had (`try_send`) -/
+theorem c18_drop_handler (st : St) (hr : Reachable st) (c : ChanId) (m : Text) (ch : Chan) (room : Bool)
+    (hh : alookup m st.core.mgr.handlers = some c) (hc : st.core.chans[c]? = some ch)
+    (hra : ch.receiverAlive = true) (hk : ch.hasKind = true) :
+    Lingering c m (step st (.dropStream c room)).st.core ∧
+    (step st (.dropStream c room)).st.pool = (if room then st.pool ++ [.unregisterNotif m] else st.pool) := by
+  have hown : ch.owner = .method m := by
+    obtain ⟨x, hx, _, ho⟩ := (slive_reachable st hr).handler m c hh
+    rw [hc] at hx; simp at hx; subst hx; exact ho
+  have e : step st (.dropStream c room) =
+      { st := { st with core := st.core.modChan c (fun x => { dropReceiver x with hasKind := false }),
+                        pool := if ch.hasKind && room then st.pool ++ [closeMsg ch.owner] else st.pool } } := by
+    simp only [step, hc, hra, Bool.not_true, Bool.false_eq_true, if_false]
+  have hd : Dead c (step st (.dropStream c room)).st.core := by
+    rw [e]
+    refine ⟨{ dropReceiver ch with hasKind := false }, ?_, rfl⟩
+    simp only [Core.modChan, modifyAt_get, hc]
+    try simp
+  refine ⟨lingering_of_reachable _ (reachable_step st _ hr) c m ?_ hd, ?_⟩
+  · rw [e]; exact hh
+  · rw [e]
+    simp only [hk, hown, closeMsg, Bool.true_and]
+
+/-- a registration whose caller gave up before the send task got to it still creates the entry, with
+nobody listening: it lingers exactly like a dropped one -/
+theorem c18_abandoned_registration (st : Core) (m : Text) (t : Ticket)
+    (hv : alookup m st.mgr.handlers = none) (ha : st.alive t = false)
+    (hb : ∀ m' c', alookup m' st.mgr.handlers = some c' → c' < st.chans.length) :
+    Lingering st.chans.length m (handleFront st (.registerNotif m t)).1 ∧
+    alookup m (handleFront st (.registerNotif m t)).1.mgr.handlers = some st.chans.length := by
+  have hins : st.mgr.insertNotificationHandler m st.chans.length =
+      some { st.mgr with handlers := (m, st.chans.length) :: st.mgr.handlers } := by
+    unfold Mgr.insertNotificationHandler; rw [hv]
+  have e : (handleFront st (.registerNotif m t)).1 =
+      (({ st with mgr := { st.mgr with handlers := (m, st.chans.length) :: st.mgr.handlers } }).newChan (.method m) t.op).1.modChan
+        st.chans.length (fun ch => { dropReceiver ch with hasKind := false }) := by
+    unfold handleFront
+    simp only [hins, ha]
+    rfl
+  rw [e]
+  refine ⟨⟨?_, ?_⟩, ?_⟩
+  · refine ⟨{ dropReceiver { cap := st.cap, owner := .method m, op := t.op } with hasKind := false }, ?_, rfl⟩
+    simp only [Core.modChan, Core.newChan, modifyAt_get]
+    simp
+  · intro m' hm'
+    have hm'' : alookup m' ((m, st.chans.length) :: st.mgr.handlers) = some st.chans.length := hm'
+    by_cases e2 : m' = m
+    · exact e2
+    · rw [alookup_cons_ne m' m _ _ e2] at hm''
+      exact absurd (hb m' _ hm'') (Nat.lt_irrefl _)
+  · show alookup m ((m, st.chans.length) :: st.mgr.handlers) = some st.chans.length
+    exact alookup_cons_self _ _ _
+
+/-- the name of a finished handler is free: registering it again succeeds, on a brand-new channel -/
+theorem c18_name_free_again (st : Core) (m : Text) (t : Ticket)
+    (hv : alookup m st.mgr.handlers = none) (ha : st.alive t = true) :
+    (handleFront st (.registerNotif m t)).2 = [.complete t (.registered st.chans.length)] ∧
+    alookup m (handleFront st (.registerNotif m t)).1.mgr.handlers = some st.chans.length ∧
+    (handleFront st (.registerNotif m t)).1.chans = st.chans ++ [{ cap := st.cap, owner := .method m, op := t.op }] := by
+  have hins : st.mgr.insertNotificationHandler m st.chans.length =
+      some { st.mgr with handlers := (m, st.chans.length) :: st.mgr.handlers } := by
+    unfold Mgr.insertNotificationHandler; rw [hv]
+  unfold handleFront
+  simp only [hins, ha, if_true]
+  exact ⟨by first | rfl | trivial, alookup_cons_self _ _ _, by first | rfl | trivial⟩
+
+/-- while the entry is there the name is taken: a second registration is refused and changes nothing -/
+theorem c18_name_taken (st : Core) (m : Text) (t : Ticket) (c : ChanId)
+    (hv : alookup m st.mgr.handlers = some c) :
+    (handleFront st (.registerNotif m t)).1 = st ∧
+    (handleFront st (.registerNotif m t)).2 = st.completeIfAlive t .alreadyRegistered := by
+  have hins : st.mgr.insertNotificationHandler m st.chans.length = none := by
+    unfold Mgr.insertNotificationHandler; rw [hv]
+  unfold handleFront
+  simp only [hins]
+  exact ⟨by first | rfl | trivial, by first | rfl | trivial⟩
+
+/-! witnesses (handler table): the histories of corpus/C18/handler-table.case -/
+
+/-- `TICK` -/
+def tTickM : Text := [116, 105, 99, 107]
+/-- `{"jsonrpc":"2.0","method":"tick","params":[1]}` -/
+def tTick : Text := [123, 34, 106, 115, 111, 110, 114, 112, 99, 34, 58, 34, 50, 46, 48, 34, 44, 34, 109, 101, 116, 104, 111, 100, 34, 58, 34, 116, 105, 99, 107, 34, 44, 34, 112, 97, 114, 97, 109, 115, 34, 58, 91, 49, 93, 125]
+
+example : IsNotifFor tTick tTickM := by
+  refine ⟨by decide, some [91, 49, 93], by decide⟩
+
+/-- register, drop with a full request queue (`room = false`): the entry lingers … -/
+def handlerDroppedFull : List Step := [.newRegister tTickM, .sendTask 0, .dropStream 0 false]
+example : (run (St.init 2 false) handlerDroppedFull).1.core.mgr.sizes = (0, 0, 0, 1) ∧
+    (run (St.init 2 false) handlerDroppedFull).1.pool = [] := by decide
+/-- … until the next notification for the method: nothing delivered, table empty, quiescent -/
+example : (run (St.init 2 false) (handlerDroppedFull ++ [.recv tTick])).1.core.mgr.sizes = (0, 0, 0, 0) ∧
+    (run (St.init 2 false) (handlerDroppedFull ++ [.recv tTick])).2 = [.complete { op := 0, wire := .null } (.registered 0)] ∧
+    quiescentB (run (St.init 2 false) (handlerDroppedFull ++ [.recv tTick])).1
+      (run (St.init 2 false) (handlerDroppedFull ++ [.recv tTick])).2 = true := by decide
+/-- with room the Unregister message does it, without any notification -/
+example : (run (St.init 2 false) [.newRegister tTickM, .sendTask 0, .dropStream 0 true, .sendTask 0]).1.core.mgr.sizes = (0, 0, 0, 0) := by
+  decide
+/-- explicit unsubscribe: removed by the Unregister message; a later notification goes nowhere; the
+name can be registered again and the new stream (channel 1) gets the next notification -/
+example :
+    (run (St.init 2 false) [.newRegister tTickM, .sendTask 0, .unsubscribeStream 0, .sendTask 0, .recv tTick]).1.core.mgr.sizes = (0, 0, 0, 0) ∧
+    (run (St.init 2 false) [.newRegister tTickM, .sendTask 0, .unsubscribeStream 0, .sendTask 0, .recv tTick,
+        .newRegister tTickM, .sendTask 0, .recv tTick]).2 =
+      [.complete { op := 0, wire := .null } (.registered 0), .complete { op := 1, wire := .null } (.registered 1),
+       .push 1 [91, 49, 93]] := by decide
+/-- abandoned registration: entry created with nobody listening, removed by the first notification -/
+example :
+    (run (St.init 2 false) [.newRegister tTickM, .abandon 0, .sendTask 0]).1.core.mgr.sizes = (0, 0, 0, 1) ∧
+    (run (St.init 2 false) [.newRegister tTickM, .abandon 0, .sendTask 0, .recv tTick]).1.core.mgr.sizes = (0, 0, 0, 0) := by
+  decide
+/-- a second registration while the first is live is refused -/
+example : (run (St.init 2 false) [.newRegister tTickM, .sendTask 0, .newRegister tTickM, .sendTask 0]).2 =
+    [.complete { op := 0, wire := .null } (.registered 0), .complete { op := 1, wire := .null } .alreadyRegistered] := by decide
 
 end Jrpc.Client
